@@ -11,7 +11,7 @@ DSET = {0: '{0,1,15,16,17,31,32,33,63,64,65,far}', 1: '0..70 and far', 2: '{0,1,
 
 def jobs(tier):
     q = tier == 'quick'; J = []
-    for cfg, defs, noslack, tag in (('haswell', (), 0, 'prod'), ('haswell', ('SONIC_USE_SANITIZE',), 1, 'san'), ('westmere', (), 0, 'sse'), ('westmere', ('SONIC_USE_SANITIZE',), 1, 'sse-san')):
+    for cfg, defs, noslack, tag in (('haswell', (), 0, 'prod'), ('haswell', ('__SANITIZE_ADDRESS__',), 1, 'san'), ('westmere', (), 0, 'sse'), ('westmere', ('__SANITIZE_ADDRESS__',), 1, 'sse-san')):
         main_cfg = tag == 'prod'
         def add(name, lo, hi, maxsp, dset, nproc=1):
             J.append(Job('C09.%s.%s' % (tag, name), 'harness/c_quote.cpp', '@h_quote', [lo, hi, maxsp, dset, noslack], config=cfg, defines=defs, nproc=nproc,
